@@ -5,6 +5,7 @@
   bracketing; worker scheduling itself is outside the model (covered by runs under 1..16 threads).
 -/
 import Jence.Model.Perft
+import Jence.Props.C01
 namespace Jence.Props.C14
 open Jence
 
@@ -53,6 +54,17 @@ theorem perft_counts_sequences (g : Game) (d : Nat) : perft g d = (seqs g d).len
       cases makeMove g m with
       | none => rfl
       | some g' => simp [ih (d + 1) (by omega) g']
+
+/-- at depth 1 the bulk count (legality filter) equals the number of moves `make` accepts: the two branches of `perft`
+    count the same thing (T1.2) -/
+theorem bulk_eq_made (g : Game) (hep : g.ep ≤ 64) :
+    perft g 1 = ((generateMoves g true).filter fun m => (makeMove g m).isSome).length := by
+  simp only [perft, bulkCount]
+  congr 1
+  apply List.filter_congr
+  intro m hm
+  rw [C01.legality_paths_agree g hep true m hm]
+  simp [makeMove, makeSearchMove]
 
 /-- every counted sequence has the requested length -/
 theorem seqs_length (g : Game) (d : Nat) : ∀ s ∈ seqs g d, s.length = d := by
